@@ -114,9 +114,12 @@ Definition set_kids (o : obj) (k : list kid) : obj := {| ok := ok o; verts := ve
 Record flags := { f_guard_cells : bool;      (* CellObject.remove_vertices skips remove_cells when no cell is touched *)
                   f_skip_valueless : bool;   (* remove_children_values skips children that have no values *)
                   f_read_empty : bool;       (* H5Reader.fetch_values accepts a zero-length dataset *)
-                  f_copy_text : bool }.      (* Data.copy blanks with np.full_like (works for str arrays) *)
-Definition as_is : flags := {| f_guard_cells := false; f_skip_valueless := false; f_read_empty := false; f_copy_text := false |}.
-Definition repaired : flags := {| f_guard_cells := true; f_skip_valueless := true; f_read_empty := true; f_copy_text := true |}.
+                  f_copy_text : bool;        (* Data.copy blanks with np.full_like (works for str arrays) *)
+                  f_add_rollback : bool }.   (* Entity.__init__ detaches the child again when an attribute setter refuses *)
+Definition as_is : flags := {| f_guard_cells := false; f_skip_valueless := false; f_read_empty := false; f_copy_text := false;
+                               f_add_rollback := false |}.
+Definition repaired : flags := {| f_guard_cells := true; f_skip_valueless := true; f_read_empty := true; f_copy_text := true;
+                                  f_add_rollback := true |}.
 
 (* H5Writer.write_data_values tests values[0] of a text array: a zero-length text array cannot be written (IndexError);
    the values setter has already stored it in memory, the old dataset is already deleted *)
@@ -288,16 +291,17 @@ Definition set_values (o : obj) (id : nat) (v : vals) : outcome :=
   end.
 
 (* parent.add_data({name: {association, values}}): the constructor attaches the child to the parent *before* the values
-   setter runs, so a refused array leaves a value-less child named "Entity" (id 0 here); it is written with the rest
-   when the workspace closes (histories with a refused add_data followed by a copy are not generated: the copy re-uses
-   the unregistered child's uid and what a re-open shows then depends on file-level state outside this model) *)
-Definition add_data (o : obj) (id : nat) (a : assoc) (k : dkind) (v : option vals) : outcome :=
+   setter runs.  Entity.__init__ either runs map_attributes inside its try block and detaches the child again when a setter
+   refuses ([f_add_rollback]: the object is exactly as before), or runs it outside: a refused array then leaves a value-less
+   child named "Entity" (id 0 here) that is written with the rest when the workspace closes *)
+Definition add_data (fl : flags) (o : obj) (id : nat) (a : assoc) (k : dkind) (v : option vals) : outcome :=
   match v with
   | None => Done (set_kids o (kids o ++ [{| kid_id := id; kassoc := a; kkind := k; kvals := None |}]))
   | Some v =>
       match format_length (n_values o a) k a v with
       | Ok v' => Done (set_kids o (kids o ++ [{| kid_id := id; kassoc := a; kkind := k; kvals := Some v' |}]))
-      | Err e => Failed e (set_kids o (kids o ++ [{| kid_id := 0; kassoc := a; kkind := k; kvals := None |}]))
+      | Err e => if f_add_rollback fl then Failed e o
+                 else Failed e (set_kids o (kids o ++ [{| kid_id := 0; kassoc := a; kkind := k; kvals := None |}]))
       end
   end.
 
@@ -435,7 +439,7 @@ Definition step (fl : flags) (o : obj) (p : op) : option outcome :=
   | AddData id a k v =>
       match ok o, a with
       | OPoints, ACell => None   (* Points have no cell count (n_values is None): cell data on Points is outside the model *)
-      | _, _ => Some (add_data o id a k v)
+      | _, _ => Some (add_data fl o id a k v)
       end
   | MaskedCopy vm cm => Some (masked_copy fl o vm cm)
   | Reopen order => option_map Done (reopen o order)
